@@ -327,7 +327,9 @@ type Exec struct {
 type Scenario struct {
 	Name    string
 	Horizon time.Duration
-	Body    func(m *Sim)
+	// MaxSteps overrides the scheduler's step budget (default 200000) for long workloads.
+	MaxSteps int
+	Body     func(m *Sim)
 	// Setup runs on the scheduler goroutine before the body thread starts.
 	Setup func(m *Sim)
 	// Final runs on the root goroutine after the scheduler stopped (all quiescent).
@@ -355,7 +357,7 @@ func runExec(t *testing.T, sc *Scenario, prefix []int, sigs []string, keepSigs b
 			globalMathRandomGenerator = m.Rand
 			vsched.Namer = m.nameLock
 			var start time.Time
-			out := vsched.Run(vsched.Config{Prefix: prefix, Sigs: sigs, Horizon: sc.Horizon, KeepSigs: keepSigs}, func(s *vsched.Sched) {
+			out := vsched.Run(vsched.Config{Prefix: prefix, Sigs: sigs, Horizon: sc.Horizon, KeepSigs: keepSigs, MaxSteps: sc.MaxSteps}, func(s *vsched.Sched) {
 				sc.Body(m)
 			}, func(s *vsched.Sched) {
 				m.S = s
